@@ -30,6 +30,13 @@ def gen_plan(verif_seed, run, vle_full_every=10):
         meas.append({"points": hist.synth_points(w, endpoints=0.5)})
     if w.random() < 0.04:
         meas.append({"points": hist.synth_points(w, npts=w.randint(101, 130), ntemps=w.randint(2, 4))})
+    for ms in list(meas):
+        pts = ms.get("points")
+        if pts and len({tuple(q) for q in pts}) < len(pts) and w.random() < 0.6:
+            # the set holds a measurement several times: once as ONE object entered several times, once as equal but
+            # distinct objects - equal data either way
+            ms["alias_dups"] = True
+            meas.append({"points": [list(q) for q in pts]})
     w.shuffle(meas)
     spec["measurements"] = meas
     full_vle = (run % vle_full_every) == 0
@@ -38,6 +45,11 @@ def gen_plan(verif_seed, run, vle_full_every=10):
     else:
         spec["vle"] = sorted(set(w.sample(hist.VLE_FILES, w.randint(1, 2))))
     M = hist.Meta(spec)
+    twins = {}
+    for i, mi in enumerate(meas):
+        for j, mj in enumerate(meas):
+            if i != j and mi.get("points") is not None and mi.get("points") == mj.get("points"):
+                twins[i] = j
     n = o.randint(3, 10)
     ops = []
     best_budget = 2
@@ -48,6 +60,9 @@ def gen_plan(verif_seed, run, vle_full_every=10):
         prev_fits = [p for p in ops if p["fn"] in ("fit", "find_best_fit")]
         if ops and r < 0.25:
             op = {k: v for k, v in o.choice(ops).items() if k not in ("id", "clock")}
+            if op["fn"] in ("fit", "find_best_fit") and op["args"]["data"]["$"][1] in twins and o.random() < 0.6:
+                # the same call on the EQUAL data set held by other objects
+                op["args"] = dict(op["args"], data=ref("measurements", twins[op["args"]["data"]["$"][1]]))
         elif prev_fits and r < 0.40:
             # another fit on the data object of an earlier (preferably include_zero) call
             zero = [p for p in prev_fits if p["args"].get("include_zero")]
@@ -83,7 +98,7 @@ def gen_plan(verif_seed, run, vle_full_every=10):
                 op["grid"] = hist.grid(o, 4)
             op.pop("check_best", None)
             a = op["args"]
-            if op["fn"] == "find_best_fit" and "n" in a and "m" in a and a.get("component_index", 0) in (0, 1) \
+            if op["fn"] == "find_best_fit" and "n" in a and "m" in a and hist.iv(a.get("component_index", 0)) in (0, 1) \
                     and (hist.iv(a["n"]) + 1) * (hist.iv(a["m"]) + 1) <= 12 and best_budget > 0:
                 op["check_best"] = True
                 best_budget -= 1
@@ -99,6 +114,18 @@ def gen_plan(verif_seed, run, vle_full_every=10):
         op = hist.g_fn_op(o, M)
         op["clock"] = {"gap": c.choice([1, 1000, c.randint(1, 10**11)]), "step": c.choice([0, 1, 1000])}
         ops.insert(o.randint(0, len(ops)), op)
+    if o.random() < 0.07:
+        # a long series of identical direct fits on one small data object (sequences of repeated fit calls on the same data object)
+        small = [i for i, ms in enumerate(meas) if ms.get("points") and len(ms["points"]) <= 10]
+        if small:
+            k = o.choice(small)
+            nt = len({q[1] for q in meas[k]["points"]})
+            op = {"fn": "fit_many", "count": 400 if o.random() < 0.5 else o.choice([12, 60]),
+                  "args": {"data": ref("measurements", k), "n": o.choice([1, 2]), "m": 1 if nt > 1 else 0},
+                  "clock": {"gap": 1000, "step": 1}}
+            if o.random() < 0.3:
+                op["args"]["include_zero"] = True
+            ops.insert(o.randint(0, len(ops)), op)
     for i, p in enumerate(ops):
         p["id"] = i
     return {"prop": PROP, "verif_seed": verif_seed, "run": run, "run_seed": rs, "budget": 5000, "world": spec, "ops": ops,
@@ -200,6 +227,13 @@ def extra_oracles(op, rep, refrep, fresh, st, plan, now):
             st["mul_checks"] += 1
             if pair is None or not all(isinstance(v, float) for v in pair) or not _close(pair[1], cs * pair[0], _tol(mag)):
                 raise Violation("C16.form", op, {"note": "(f*c)(x,T) != c*f(x,T)", "x": x, "T": t, "f": pair and pair[0], "f_times_c": pair and pair[1], "c": cs})
+    if fn == "fit_many" and rep["kind"] == "ok":
+        fm = d.get("fit_many") or {}
+        st["fit_many_fits"] = st.get("fit_many_fits", 0) + int(fm.get("count") or 0)
+        if fm.get("distinct") != 1:
+            raise Violation("C16.repeat", op, {"note": "the same fit repeated in one interpreter gave different coefficients",
+                                               "first": fm.get("first"), "changed_at_repetition": fm.get("changed_at"), "then": fm.get("changed"),
+                                               "repetitions": fm.get("count")})
     # ---- best-of selection (permeance functions)
     if op.get("check_best") and rep["kind"] == "ok" and isinstance(d.get("loss"), float):
         a = op["args"]
